@@ -287,6 +287,15 @@ static int do_call(char *line, long long *val) {
         MPI_Offset st[2] = {0, 0}, ct[2] = {1, 4}, sd[2] = {1, 1}, im[2] = {4, 1};
         MPI_Offset *sp = isr ? st : st + 1, *cp = isr ? ct : ct + 1, *dp = isr ? sd : sd + 1, *ip = isr ? im : im + 1;
         if (bad) st[1] = 99;
+        /* zero-length form of the flavour: a zero in count[] (vara/vars/varm/mvar), num == 0 (varn),
+         * bufcount == 0 (flex), MPI_DATATYPE_NULL filetype (vard) */
+        int zl = isrw ? (nt > 8 && !strcmp(tok[8], "z")) : (nt > 7 && !strcmp(tok[7], "z"));
+        int num = 1; MPI_Offset fbc = 4;
+        if (zl) {
+            if (!strcmp(fl, "varn")) num = 0;
+            else if (!strcmp(fl, "flex")) { fbc = 0; if (coll) cp[0] = 0; }
+            else if (strcmp(fl, "vard")) cp[0] = 0;
+        }
         if (!isrw) {
             if (nbufs >= 8) nbufs = 0;
         }
@@ -301,9 +310,14 @@ static int do_call(char *line, long long *val) {
                 else e = text ? ncmpi_bput_var1_text(ncid, vid, sp, cb, &req) : ncmpi_bput_var1_int(ncid, vid, sp, ib, &req);
             } else if (!strcmp(fl, "varn")) {
                 MPI_Offset *ss[1] = {sp}, *cc[1] = {cp};
-                if (!strcmp(kind, "iput")) e = text ? ncmpi_iput_varn_text(ncid, vid, 1, ss, cc, cb, &req) : ncmpi_iput_varn_int(ncid, vid, 1, ss, cc, ib, &req);
-                else if (!strcmp(kind, "iget")) e = text ? ncmpi_iget_varn_text(ncid, vid, 1, ss, cc, cb, &req) : ncmpi_iget_varn_int(ncid, vid, 1, ss, cc, ib, &req);
-                else e = text ? ncmpi_bput_varn_text(ncid, vid, 1, ss, cc, cb, &req) : ncmpi_bput_varn_int(ncid, vid, 1, ss, cc, ib, &req);
+                if (!strcmp(kind, "iput")) e = text ? ncmpi_iput_varn_text(ncid, vid, num, ss, cc, cb, &req) : ncmpi_iput_varn_int(ncid, vid, num, ss, cc, ib, &req);
+                else if (!strcmp(kind, "iget")) e = text ? ncmpi_iget_varn_text(ncid, vid, num, ss, cc, cb, &req) : ncmpi_iget_varn_int(ncid, vid, num, ss, cc, ib, &req);
+                else e = text ? ncmpi_bput_varn_text(ncid, vid, num, ss, cc, cb, &req) : ncmpi_bput_varn_int(ncid, vid, num, ss, cc, ib, &req);
+            } else if (!strcmp(fl, "flex")) {
+                MPI_Datatype bt = text ? MPI_CHAR : MPI_INT; void *bp = text ? (void *)cb : (void *)ib;
+                if (!strcmp(kind, "iput")) e = ncmpi_iput_vara(ncid, vid, sp, cp, bp, fbc, bt, &req);
+                else if (!strcmp(kind, "iget")) e = ncmpi_iget_vara(ncid, vid, sp, cp, bp, fbc, bt, &req);
+                else e = ncmpi_bput_vara(ncid, vid, sp, cp, bp, fbc, bt, &req);
             } else {
                 if (!strcmp(kind, "iput")) e = text ? ncmpi_iput_vara_text(ncid, vid, sp, cp, cb, &req) : ncmpi_iput_vara_int(ncid, vid, sp, cp, ib, &req);
                 else if (!strcmp(kind, "iget")) e = text ? ncmpi_iget_vara_text(ncid, vid, sp, cp, cb, &req) : ncmpi_iget_vara_int(ncid, vid, sp, cp, ib, &req);
@@ -322,15 +336,19 @@ static int do_call(char *line, long long *val) {
         if (!strcmp(fl, "varm")) return RW4(varm, (ncid, vid, sp, cp, dp, ip, ib), (ncid, vid, sp, cp, dp, ip, cb));
         if (!strcmp(fl, "varn")) {
             MPI_Offset *ss[1] = {sp}, *cc[1] = {cp};
-            return RW4(varn, (ncid, vid, 1, ss, cc, ib), (ncid, vid, 1, ss, cc, cb));
+            return RW4(varn, (ncid, vid, num, ss, cc, ib), (ncid, vid, num, ss, cc, cb));
         }
         if (!strcmp(fl, "flex")) {   /* flexible API with an MPI datatype that names the typed API's itype */
             MPI_Datatype bt = text ? MPI_CHAR : MPI_INT; void *bp = text ? (void *)cb : (void *)ib;
-            if (isPut) return coll ? ncmpi_put_vara_all(ncid, vid, sp, cp, bp, 4, bt) : ncmpi_put_vara(ncid, vid, sp, cp, bp, 4, bt);
-            return coll ? ncmpi_get_vara_all(ncid, vid, sp, cp, bp, 4, bt) : ncmpi_get_vara(ncid, vid, sp, cp, bp, 4, bt);
+            if (isPut) return coll ? ncmpi_put_vara_all(ncid, vid, sp, cp, bp, fbc, bt) : ncmpi_put_vara(ncid, vid, sp, cp, bp, fbc, bt);
+            return coll ? ncmpi_get_vara_all(ncid, vid, sp, cp, bp, fbc, bt) : ncmpi_get_vara(ncid, vid, sp, cp, bp, fbc, bt);
         }
         if (!strcmp(fl, "vard")) {   /* filetype = 4 contiguous ints; only for int variables */
             MPI_Datatype ft; int e;
+            if (zl) {
+                if (isPut) return coll ? ncmpi_put_vard_all(ncid, vid, MPI_DATATYPE_NULL, ib, 4, MPI_INT) : ncmpi_put_vard(ncid, vid, MPI_DATATYPE_NULL, ib, 4, MPI_INT);
+                return coll ? ncmpi_get_vard_all(ncid, vid, MPI_DATATYPE_NULL, ib, 4, MPI_INT) : ncmpi_get_vard(ncid, vid, MPI_DATATYPE_NULL, ib, 4, MPI_INT);
+            }
             MPI_Type_contiguous(4, MPI_INT, &ft); MPI_Type_commit(&ft);
             if (isPut) e = coll ? ncmpi_put_vard_all(ncid, vid, ft, ib, 4, MPI_INT) : ncmpi_put_vard(ncid, vid, ft, ib, 4, MPI_INT);
             else e = coll ? ncmpi_get_vard_all(ncid, vid, ft, ib, 4, MPI_INT) : ncmpi_get_vard(ncid, vid, ft, ib, 4, MPI_INT);
